@@ -6,7 +6,7 @@ from ..gen.progs import push, op, b1
 from ..ref import ed25519 as E
 
 INV = ['RootBinds', 'KeyPathExact', 'ScriptPathExact', 'BuildersUnlock']
-SF = {'sigfield1': b'taproot', 'sigfield2': b'spend'}
+SF = {f'sigfield{i}': b'tap-%d;' % i for i in range(1, 9)}
 FLAG = {'f0': '00', 'perm': '01', 'nonperm': '02'}
 ALLOWED = '01'
 
@@ -28,7 +28,17 @@ def ref_root(pk: bytes, script: bytes) -> bytes:
     return E.point_add(pk, E.base_mult_noclamp(t))
 
 
-def one(F, T, seed, oseed, script, oscript, w, fl, lockkind, sf=None, prefix=b'', limit=128, allowed=ALLOWED, fh=None):
+def ref_keyspend_sig(seed: bytes, script: bytes, sf: dict, flag: int) -> bytes:
+    """key-spend signature made WITHOUT the implementation: root scalar = x + clamp(sha256(P || sha256(S))), reference
+    signer over the reference message (so that a defect in the VM's own message building cannot cancel out)"""
+    from ..ref.opsem import message
+    from .c15 import sign_scalar
+    x = E.derive_key_from_seed(seed)
+    t = E.clamp(hashlib.sha256(E.public_key(seed) + hashlib.sha256(script).digest()).digest())
+    return sign_scalar(E.scalar_add(x, t), message(sf, flag)) + (bytes([flag]) if flag else b'')
+
+
+def one(F, T, seed, oseed, script, oscript, w, fl, lockkind, sf=None, prefix=b'', limit=128, allowed=ALLOWED, fh=None, indep=False):
     sf = sf or SF
     S, OS = T.Script.from_bytes(script), T.Script.from_bytes(oscript)
     pk, opk = E.public_key(seed), E.public_key(oseed)
@@ -39,7 +49,9 @@ def one(F, T, seed, oseed, script, oscript, w, fl, lockkind, sf=None, prefix=b''
         return ['root-mismatch', 'noexec']
     fh = fh or FLAG[fl]
     supplied = script
-    if w == 'keyspend':
+    if w == 'keyspend' and indep:
+        wit = T.Script.from_bytes(push(ref_keyspend_sig(seed, script, sf, int(fh, 16))))
+    elif w == 'keyspend':
         wit = T.make_taproot_witness_keyspend(seed, dict(sf), S, sigflags=fh)
     elif w == 'keyinternal':
         wit = T.make_single_sig_witness(seed, dict(sf), fh)
@@ -59,8 +71,9 @@ def one(F, T, seed, oseed, script, oscript, w, fl, lockkind, sf=None, prefix=b''
     wit = prefix + bytes(wit.bytes)
     # run through the public pieces so that the cache can be inspected afterwards
     try:
-        _, stack, cache = F.run_script(wit, dict(sf), callstack_limit=limit)
-        tape = F.Tape(lock, callstack_limit=limit)
+        t1, stack, cache = F.run_script(wit, dict(sf), callstack_limit=limit)
+        cache.pop('returned', None)
+        tape = F.Tape(lock, callstack_limit=limit, callstack_count=t1.callstack_count, definitions=t1.definitions)      # as run_auth_scripts chains them
         tape.plugins = {}
         F.run_tape(tape, stack, cache)
         ok = len(stack) == 1 and stack.list()[0] == b'\xff'
@@ -86,13 +99,14 @@ def run_mc(k):
         pairs += [(f'{1 << i:02x}', f'{1 << (i if k["fl"] == "perm" else (i + 1) % 8):02x}') for i in range(8)]
     got = None
     for allowed, fh in pairs:
-        got = one(F, T, seeds[k['k']], seeds[3 - k['k']], scripts[k['s']], scripts[3 - k['s']], k['w'], k['fl'], k['lock'],
-                  allowed=allowed, fh=fh)
-        # run_auth_scripts reports an execution error as False
-        if got[0] == 'false' and exp[0] == 'error':
-            got[0] = 'error'
-        if got != exp:
-            return got, f'allowed flags x{allowed}, signature flag x{fh}'
+        for indep in ((False, True) if k['w'] == 'keyspend' else (False,)):
+            got = one(F, T, seeds[k['k']], seeds[3 - k['k']], scripts[k['s']], scripts[3 - k['s']], k['w'], k['fl'], k['lock'],
+                      allowed=allowed, fh=fh, indep=indep)
+            # run_auth_scripts reports an execution error as False
+            if got[0] == 'false' and exp[0] == 'error':
+                got[0] = 'error'
+            if got != exp:
+                return got, f'allowed flags x{allowed}, signature flag x{fh}' + (', signature made by the reference signer' if indep else '')
     return got, None
 
 
@@ -126,12 +140,28 @@ def record_random(args):
         if fv == 0xff:
             fv = outside[0]
         try:
-            got = one(F, T, s1, s2, script, oscript, w, fl, lk, sf, allowed=f'{al:02x}', fh=f'{fv:02x}')
+            got = one(F, T, s1, s2, script, oscript, w, fl, lk, sf, allowed=f'{al:02x}', fh=f'{fv:02x}', indep=r.random() < 0.5)
         except BaseException as e:
             if isinstance(e, (KeyboardInterrupt, SystemExit)):
                 raise
             got = [f'raised-{type(e).__name__}', 'noexec']
         out.append({'w': w, 'fl': fl, 'sv': sv, 'lock': lk, 'got': got})
+        # native vs non-native when the witness has burnt k calls and the committed script makes d calls: both verdicts
+        # must agree away from the budget edge (the non-native lock itself spends 2 calls)
+        if r.random() < 0.25:
+            kk, dd = r.choice([0, 30, 60, 100]), r.choice([0, 20, 40, 90, 120])
+            if abs(kk + dd - 128) > 4:
+                burn = op('DEF', b1(9), b'\x00\x00') + op('CALL', b1(9)) * kk
+                bs = push(b'\x51') + op('POP0') + op('DEF', b1(8), b'\x00\x00') + op('CALL', b1(8)) * dd + op('TRUE')
+                bo = push(b'\x52') + op('POP0') + op('TRUE')
+                try:
+                    a = one(F, T, s1, s2, bs, bo, 'scriptspend', 'f0', 'native', sf, burn)
+                    b = one(F, T, s1, s2, bs, bo, 'scriptspend', 'f0', 'nonnative', sf, burn)
+                    want = 'true' if kk + dd + 4 <= 128 else 'false'
+                    out.append({'w': 'eq', 'fl': 'f0', 'sv': 'true', 'lock': 'both', 'got': [a[0], b[0]] if a[0] == want else [a[0], 'native-verdict-wrong']})
+                except BaseException as e:
+                    if isinstance(e, (KeyboardInterrupt, SystemExit)):
+                        raise
         # native vs non-native on an adversarial witness (C01 family) that spends little call budget
         adv = runs.make_auth_adv(r.randrange(10 ** 9))
         prefix = b''.join(adv['scripts'][:-1])[:400]
@@ -157,7 +187,9 @@ def main(tier: str, seed: int) -> int:
                 'root inside the lock is recomputed with the pure-Python Ed25519 (P + clamp(sha256(P || sha256(S))) G), the verdict of '
                 'witness + lock and whether an instruction of the supplied script ran (its marker in the cache) are compared. traces: '
                 'random seeds / scripts / sigfields / allowed-flags bytes and signature flags (subsets of / bits outside the allowed byte) for all classes, and native vs non-native verdicts on adversarial '
-                'witnesses of the C01 family, judged by TLC.')
+                'witnesses of the C01 family and on witnesses that burn k calls before a committed script making d calls (both sides of the '
+                'budget), judged by TLC. Key-spend signatures are made twice: by the builder and by the reference signer over the reference '
+                'message with the independently derived root scalar, with all eight sigfields present.')
     rep.assumptions = ['symbolic algebra (hash collisions / discrete-log coincidences excluded)',
                        'witnesses compared native vs non-native use little call budget (the non-native lock spends 2 calls)']
     quick = tier == 'quick'
